@@ -38,6 +38,20 @@ pub mod verif_cron {
     }
 
     #[cfg(test)]
+    pub fn prop_c17_light(minutes: HashSet<u8>, hours: HashSet<u8>, dom: HashSet<u8>, months: HashSet<u8>, dow: HashSet<u8>, now_days: i32, now_secs: u32) {
+        assume(set_within(&minutes, 0, 59)); assume(set_within(&hours, 0, 23)); assume(set_within(&dom, 1, 31));
+        assume(set_within(&months, 1, 12)); assume(set_within(&dow, 0, 6));
+        assume(now_secs < 86_400);
+        let now = DateTime { days: now_days, nanoseconds: now_secs as u64 * 1_000_000_000, offset: Offset::Fixed(0) };
+        let mut s = CronSchedule { minutes: minutes.clone(), hours: hours.clone(), days_of_month: dom.clone(), months: months.clone(), days_of_week: dow.clone(), last_schedule: None, now: Some(now) };
+        let r = s.next().unwrap();
+        assert!(r.nanoseconds % 60_000_000_000 == 0);
+        let now_min = now_days as i64 * 1440 + (now_secs / 60) as i64;
+        let r_min = r.days as i64 * 1440 + (r.nanoseconds / 60_000_000_000) as i64;
+        assert!(r_min > now_min);
+    }
+
+    #[cfg(test)]
     fn matches(minutes: &HashSet<u8>, hours: &HashSet<u8>, dom: &HashSet<u8>, months: &HashSet<u8>, dow: &HashSet<u8>, dom_r: bool, dow_r: bool, t: DateTime) -> bool {
         let day_ok = if dom_r && dow_r { dom.contains(&(t.day() as u8)) || dow.contains(&t.weekday()) }
             else if dom_r { dom.contains(&(t.day() as u8)) } else if dow_r { dow.contains(&t.weekday()) } else { true };
